@@ -26,7 +26,8 @@ HELPERS = {"get_sqrtprec_from_cov": +1, "get_sqrtprec_from_sqrtcov": +1, "get_sq
 
 
 def _norm(e) -> str:
-    return unparse(e).replace(" ", "").replace("\n", "")
+    from .common import vstr
+    return vstr(e)
 
 
 def run(chk, repo: Repo):
